@@ -168,7 +168,7 @@ def int_leaf(g, env):
     if arrs:
         opts += ['elem'] * 2
     anyarr = env.arrays()
-    if anyarr and g.p.get('intrinsics'):
+    if anyarr and g.p.get('intrinsics') and g.p.get('inquiry', True):
         opts.append('size')
     c = g.pick(opts)
     if c == 'lit':
@@ -359,14 +359,14 @@ def section_of(g, env, name, extents, allow_stride=True):
         span = (ext - 1) * stride + 1
         lo = lb + g.i(0, avail - span)
         hi = lo + span - 1
-        if d[1] != 'n' and lo == lb and hi == ubmin and stride == 1 and g.chance(50):
+        if d[1] != 'n' and lo == lb and hi == ubmin and stride == 1 and not v.get('noopen') and g.chance(50):
             subs.append(['rng', None, None, None])
         else:
             whole = False
             subs.append(['rng', lit(lo), lit(hi), lit(stride) if stride != 1 else None])
     base = designator_for(env, name)
     parts = [list(x) for x in base[1]]
-    if whole and all(d[1] != 'n' for d in v['dims']) and g.chance(60):
+    if whole and all(d[1] != 'n' for d in v['dims']) and not v.get('nobare') and g.chance(60):
         parts[-1][1] = None     # bare array name
     else:
         parts[-1][1] = subs
